@@ -4,23 +4,23 @@ from . import pipeline as P
 
 # property id -> theorems of Properties.v that serve it
 THEOREMS = {
-    'C01': ['C01_getter_exact', 'C01_bit_weights', 'C01_outside_bits_irrelevant', 'C01_generator_model_every_getter'],
-    'C02': ['C02_setter_exact', 'C02_readback', 'C02_frame', 'C02_generator_model_every_setter'],
+    'C01': ['C01_getter_exact', 'C01_bit_weights', 'C01_outside_bits_irrelevant', 'C01_generator_model_every_getter', 'model_macro_end_to_end'],
+    'C02': ['C02_setter_exact', 'C02_readback', 'C02_frame', 'C02_generator_model_every_setter', 'model_macro_end_to_end'],
     'C03': ['C01_getter_exact', 'C02_setter_exact', 'C03_oob_panics', 'C01_generator_model_every_getter', 'C02_generator_model_every_setter', 'C03_generator_model_out_of_range_index_panics'],
     'C04': ['C01_getter_exact', 'C02_setter_exact', 'C01_bit_weights', 'C02_readback', 'C02_frame', 'C01_generator_model_every_getter', 'C02_generator_model_every_setter', 'C04_distinct_bits_fit_the_base'],
     'C05': ['C01_getter_exact', 'C02_setter_exact', 'C01_generator_model_every_getter', 'C02_generator_model_every_setter'],
-    'C06': ['C06_raw_value_exact', 'C06_new_with_raw_value_exact', 'C06_storage_minimal', 'C06_generator_model_raw_value', 'C06_generator_model_new_with_raw_value'],
+    'C06': ['C06_raw_value_exact', 'C06_new_with_raw_value_exact', 'C06_storage_minimal', 'C06_generator_model_raw_value', 'C06_generator_model_new_with_raw_value', 'model_macro_end_to_end'],
     'C07': ['C07_new_returns_the_variant_with_that_discriminant', 'C07_err_when_no_variant', 'C07_raw_then_new',
             'C07_new_then_raw', 'C07_never_panics', 'C10_no_variant_is_unrepresentable', 'C07_real_match_is_the_model_conversion'],
     'C08': ['C01_getter_exact', 'C02_setter_exact', 'C01_generator_model_every_getter', 'C02_generator_model_every_setter'],
     'C09': ['C09_accept_iff_valid', 'C09_field_accept_iff_valid', 'C09_argument_automaton_parses_well_formed_attributes',
-            'C09_accepted_fields_have_a_parsable_attribute'],
+            'C09_accepted_fields_have_a_parsable_attribute', 'model_macro_end_to_end'],
     'C10': ['C10_enum_accept_iff_valid', 'C10_exhaustive_claims_are_sound', 'C10_no_variant_is_unrepresentable'],
     'C11': ['C11_no_state_above_bit_N', 'C11_rewrap_is_identity_on_reachable_states', 'C12_real_code_any_history',
-            'C12_run_obligations_give_setters_ok', 'C02_setter_exact', 'C06_raw_value_exact', 'C06_new_with_raw_value_exact', 'C12_generator_model_any_history', 'C02_generator_model_every_setter'],
+            'C12_run_obligations_give_setters_ok', 'C02_setter_exact', 'C06_raw_value_exact', 'C06_new_with_raw_value_exact', 'C12_generator_model_any_history', 'C02_generator_model_every_setter', 'model_macro_end_to_end'],
     'C12': ['C12_last_write_wins', 'C12_last_write_is_the_last_covering_one', 'C12_untouched_bits_keep_initial_value',
             'C12_disjoint_writes_commute', 'C12_getters_observe_the_state', 'C12_overlapping_fields_alias_coherently',
-            'C12_real_code_any_history', 'C12_run_obligations_give_setters_ok', 'C02_setter_exact', 'C12_generator_model_any_history'],
+            'C12_real_code_any_history', 'C12_run_obligations_give_setters_ok', 'C02_setter_exact', 'C12_generator_model_any_history', 'model_macro_end_to_end'],
     'C13': ['C13_builder_is_the_with_chain_from_the_default', 'C13_every_argument_reads_back',
             'C13_uncovered_bits_keep_the_default', 'C13_expected_step_performs_the_with_calls', 'C12_real_code_any_history',
             'C12_run_obligations_give_setters_ok'],
@@ -33,7 +33,7 @@ THEOREMS = {
     'C18': ['C18_public_items_are_documented', 'C18_builder_items_are_documented'],
     'C19': ['C19_every_field_by_name_in_order', 'C19_text_is_a_function_of_the_getters', 'C19_standard_struct_format', 'C01_getter_exact'],
     'C16': ['C16_seval_total_profile_independent', 'C16_checked_ok_then_unchecked_same', 'C01_getter_exact',
-            'C02_setter_exact', 'C01_generator_model_every_getter', 'C02_generator_model_every_setter', 'C12_generator_model_any_history', 'C03_generator_model_out_of_range_index_panics'],
+            'C02_setter_exact', 'C01_generator_model_every_getter', 'C02_generator_model_every_setter', 'C12_generator_model_any_history', 'C03_generator_model_out_of_range_index_panics', 'model_macro_end_to_end'],
 }
 
 ALLOWED_AXIOMS = set()   # the development is axiom-free; anything printed is reported
